@@ -16,15 +16,17 @@ pub mod c11;
 pub mod c12;
 pub mod c13;
 pub mod c14;
+pub mod c15;
 pub mod c16;
 pub mod c17;
 pub mod c18;
 pub mod c19;
+pub mod c20;
 
 pub fn all() -> Vec<&'static Spec> {
     vec![
         &c01::SPEC, &c02::SPEC, &c03::SPEC, &c04::SPEC, &c05::SPEC, &c07::SPEC, &c08::SPEC, &c09::SPEC, &c10::SPEC, &c11::SPEC, &c12::SPEC, &c13::SPEC,
-        &c14::SPEC, &c16::SPEC, &c17::SPEC, &c18::SPEC, &c19::SPEC,
+        &c14::SPEC, &c15::SPEC, &c16::SPEC, &c17::SPEC, &c18::SPEC, &c19::SPEC, &c20::SPEC,
     ]
 }
 
